@@ -149,6 +149,8 @@ pub struct Scenario {
     pub slow_view: u8,
     /// the payload destructor yields this many times before it takes effect
     pub slow_drop: u8,
+    /// scheduling points also *after* every write of the crate (see rt `post_write`)
+    pub post_write: bool,
     /// probability (per 65536) of a spurious compare_exchange_weak failure
     pub weak_cas_rate: u32,
     /// probability (per 256) that a task is polled again without having been notified
@@ -177,6 +179,7 @@ impl Scenario {
             slow_clone: 0,
             slow_view: 0,
             slow_drop: 0,
+            post_write: false,
             weak_cas_rate: 0,
             spurious_poll: 0,
             quarantine: false,
@@ -426,6 +429,7 @@ impl Scenario {
             .set("slow_clone", J::UInt(self.slow_clone as u64))
             .set("slow_view", J::UInt(self.slow_view as u64))
             .set("slow_drop", J::UInt(self.slow_drop as u64))
+            .set("post_write", J::Bool(self.post_write))
             .set("weak_cas_rate", J::UInt(self.weak_cas_rate as u64))
             .set("spurious_poll", J::UInt(self.spurious_poll as u64))
             .set("quarantine", J::Bool(self.quarantine))
@@ -493,6 +497,7 @@ impl Scenario {
             slow_clone: j.u("slow_clone") as u8,
             slow_view: j.u("slow_view") as u8,
             slow_drop: j.u("slow_drop") as u8,
+            post_write: j.get("post_write").and_then(|x| x.as_bool()).unwrap_or(false),
             weak_cas_rate: j.u("weak_cas_rate") as u32,
             spurious_poll: j.u("spurious_poll") as u8,
             quarantine: j.get("quarantine").and_then(|x| x.as_bool()).unwrap_or(false),
